@@ -21,7 +21,7 @@ var profiles = map[string]Profile{
 	// C14: version bookkeeping, overwrites, loads of every kind
 	"C14": {Name: "C14", MinOps: 12, MaxOps: 45, Keys: 5, EmptyVals: false, ObsEvery: 3,
 		Initials: []int64{-1, -1, 1, 7, 1 << 40},
-		W:        map[string]int{"set": 18, "rm": 10, "save": 22, "rollback": 3, "reopen": 8, "load": 8, "prune": 8, "lvfo": 4, "resave": 8, "pintest": 4}},
+		W:        map[string]int{"set": 18, "rm": 10, "save": 22, "rollback": 3, "reopen": 8, "load": 8, "prune": 8, "lvfo": 4, "resave": 8, "pintest": 4, "dvfrom": 4, "reopenat": 3}},
 	// C11: balance under ordered insertions and removals
 	"C11": {Name: "C11", MinOps: 30, MaxOps: 150, Keys: 40, EmptyVals: false, ObsEvery: 25,
 		W: map[string]int{"set": 60, "rm": 22, "save": 6, "reopen": 1, "costs": 4}},
